@@ -338,19 +338,33 @@ func c05LiveRestartCase(z []int64) (string, []Fail) {
 			arrival[late[i].Stamp] = n + i
 		}
 		srv.SetTail(ffStep{Mode: ffHealthy})
-		// the first part is on its way when the reload begins, the rest follows record by record while it runs
-		head := m / 3
+		// the first part is on its way when the reload begins, the middle part follows record by record while the
+		// reload runs (what arrives while the reload holds the lock waits in the socket and is served the moment the
+		// new pipelines exist), the last part is sent the moment the reload has returned
+		head, tail := m/3, m/3
 		sendDone := make(chan struct{})
+		reloaded := make(chan struct{})
 		go func() {
 			defer close(sendDone)
 			_ = cl.Send(late[:head], nil)
-			for i := head; i < m; i++ {
+			i := head
+		MIDDLE:
+			for ; i < m-tail; i++ {
+				select {
+				case <-reloaded:
+					break MIDDLE
+				default:
+				}
 				_ = cl.Send(late[i:i+1], nil)
-				for t0 := time.Now(); time.Since(t0) < 40*time.Microsecond; {
+				for t0 := time.Now(); time.Since(t0) < 150*time.Microsecond; {
 				}
 			}
+			select {
+			case <-reloaded:
+			case <-time.After(40 * time.Second):
+			}
+			_ = cl.Send(late[i:], nil)
 		}()
-		reloaded := make(chan struct{})
 		go func() { rorc.VerifReload(); close(reloaded) }()
 		select {
 		case <-reloaded:
